@@ -488,6 +488,20 @@ func runC19(c *Ctx) {
 							}
 							break
 						}
+						// or the character is appended to a byte slice / stored into one (out = append(out, base[idx]))
+						if y.Kind == EvStore {
+							y.Val.walk(func(a *Sym) {
+								if a.Kind == KIndex && a.Args[0].Key() == base.Key() && a.Args[1].Key() == e.Res.Key() {
+									used = true
+								}
+							})
+							if used {
+								break
+							}
+						}
+						if y.Kind == EvCall && y.Val != nil && y.Val.Key() == cb.Key() {
+							break
+						}
 					}
 					if !used && ok {
 						ok = false
